@@ -8,6 +8,14 @@ NA={
  "C18":"Static well-formedness of emitted text, a pure function of the machine configuration; no schedule, clock or fault involved (DESIGN.md §4).",
 }
 CLAIMS={
+ "C01":("exploration",
+  "Random architectures and in-range programs over a committed table of co-implemented (opcode, register size) pairs are executed twice — generated HDL clock by clock in vsim, procbuilder.VM tick by tick — each under its own seeded environment timing; retired pc sequences, post-retire (pc, registers, outputs) snapshots and handshaked output streams must agree. Sampling over programs, architectures and environment schedules.",
+  "Trusted: vsim as Verilog executor (2-state, written for this task), the committed co-implemented table (harness/C01/TABLE.md lists every exclusion and why), disciplined I/O regime only, no RAM opcodes (their Simulate is a stub), hardware-optimisation flags not exercised yet.",
+  "deterministic co-simulation of generated HDL (vsim) and ISA simulator under seeded handshake/stall environments; retire-point state equality","DESIGN.md §3 C01"),
+ "C10":("exploration",
+  "Random histories of topology edits with valid and invalid arguments, save/reload (process restart) and crash-before-save are applied to the real Bondmachine API and to a name-based reference model; well-formedness, bonds-by-name equality, rejected-edit-leaves-state and reload equality are checked after every step.",
+  "Trusted: the bondgraph reference model (written from the property statement); an edit the specification rejects may be refused loudly (panic) as long as the machine is unchanged.",
+  "deterministic simulation of edit/restart/crash histories against an executable reference model","DESIGN.md §3 C10"),
  "C13":("exploration",
   "The generated LIFO/FIFO module is executed clock by clock (vsim) under seeded protocol-abiding agents with stalls; per-cycle refinement to an abstract sequence, porcupine linearizability of the recorded agent histories and bounded service in a stall-free tail are checked. Seeded search over agent behaviours and configurations, not the exhaustive state exploration the property text envisages.",
   "Trusted: vsim (2-state interpreter written for this task, self-tested on hand-computed waveforms), the agents' protocol implementation, porcupine. Registers power up as zero, reset for two clocks.",
